@@ -252,3 +252,26 @@ Proof.
   apply (H A2). unfold qmean, rsum. cbn [seq map fold_left ex3_e]. change (IZR (Z.of_nat 1)) with 1.
   unfold rH. repeat rplat_step. lra.
 Qed.
+
+(* the data-only form of the min/max clause, instantiated at the rH run *)
+Example ex3_rH_minmax :
+  (exists i, (i < 3)%nat /\ 1 / 8 = pdf_value (RndOps rH) 1 (ex3_e i)) /\
+  (exists i, (i < 3)%nat /\ 203 / 625 = pdf_value (RndOps rH) 1 (ex3_e i)) /\
+  0 <= 1 / 8 /\ 1 / 8 <= 203 / 625 /\ 203 / 625 <= 1.
+Proof.
+  destruct rH_admissible as (A1 & A2 & _ & _ & A5 & _).
+  apply (rnd_minmax_unit_terms rH 10 3 1 45 ex3_e 10 (1 / 8) (203 / 625) [(1, 0); (3 / 2, 1 / 2); (1000, 999)]
+           A1 A2 (fun z _ => A5 z)); [lia|lra| |exact ex3_rH].
+  intros i l _ _. apply ex3_e_01.
+Qed.
+
+(* eliminate_maxima_height under rH, h = 3/8: 2 - 3/8 = 13/8 is rounded to 3/2 *)
+Example ex3_eliminate_rH :
+  eliminate_maxima (RndOps rH) (3 / 8) [1; 2; 1000] [0; 1; 999] = [5 / 8; 3 / 2; 7997 / 8].
+Proof.
+  rewrite (proj1 (eliminate_rnd_spec rH (3 / 8) _ _)) by lra. cbn [map]. unfold rH.
+  repeat rplat_step.
+  rewrite (Rmax_left (1 - 3 / 8) 0) by lra. rewrite (Rmax_left (3 / 2) 0) by lra.
+  rewrite (Rmax_left (1000 - 3 / 8) 0) by lra.
+  repeat (apply f_equal2; [lra|]). reflexivity.
+Qed.
